@@ -79,6 +79,9 @@ def run(chk):
             degenerate = Z.shape[0] and (not np.any(Z[:, 0] - Z[0, 0]))
             if name == "poisson":
                 X, Y, Z = Xc, Yc, Zc
+            if rng.random() < 0.2:              # count data handed over with an integer dtype, for every estimator name
+                X, Y, Z = Xc.astype(np.int64), Yc.astype(np.int64), Zc.astype(np.int64)
+                chk.count("inputs.int64_counts")
             st = {"k": int(rng.integers(1, N)), "metric": str(rng.choice(["euclidean", "cityblock", "chebyshev"])),
                   "bandwidth": [str(rng.choice(["silverman", "scott"])), float(rng.choice([0.3, 0.75, 1.25]))][int(rng.random() < 0.4)],
                   "kernel": str(rng.choice(["gaussian", "gaussian", "tophat", "epanechnikov"]))}
